@@ -1023,7 +1023,7 @@ func streamPage(w *casefile.Writer, r *rng.R, rounds, docsPerRound, queries int)
 						uniq = append(uniq, k)
 					}
 				}
-				if r.Chance(1, 8) && len(uniq) > 0 { // some stored documents repeat a key
+				if r.Chance(1, 20) && len(uniq) > 0 { // some stored documents repeat a key
 					k := rng.Pick(r, uniq)
 					if k != tkey {
 						pos := r.Intn(len(uniq) + 1)
